@@ -26,12 +26,15 @@ def exact_lse(col, dV):
 
 
 def gen_array(rng, rows, cols):
-    style = rng.choice(['wide', 'big_pos', 'big_neg', 'mixed_cols', 'small'])
+    style = rng.choice(['wide', 'big_pos', 'big_neg', 'mixed_cols', 'small', 'edge'])
     a = np.zeros((rows, cols))
     for j in range(cols):
         base = {'wide': rng.uniform(-1e5, 1e4), 'big_pos': rng.uniform(700, 1e4), 'big_neg': rng.uniform(-1e5, -800),
                 'mixed_cols': rng.choice([rng.uniform(-1e5, -1000), rng.uniform(-20, 20), rng.uniform(710, 9000)]),
-                'small': rng.uniform(-5, 5)}[style]
+                'small': rng.uniform(-5, 5),
+                # just inside the range where exp() of the unshifted value is still finite / non-zero: only the volume element or the
+                # number of terms takes an unshifted sum out of the double range
+                'edge': rng.choice([1, -1]) * rng.uniform(650, 709.5)}[style]
         spread = rng.choice([0.0, 1.0, 30.0, 800.0, 5000.0])
         for i in range(rows):
             a[i, j] = base - rng.random() * spread
@@ -70,6 +73,8 @@ def run(R):
         a, style = gen_array(R.rng, rows, cols)
         styles[style] = styles.get(style, 0) + 1
         dV = R.rng.choice([1.0, 1.0, 0.5, 1e-3, 7.0, 1e4 * R.rng.random() + 1e-6])
+        if style == 'edge':
+            dV = R.rng.choice([1e12, 1e-30, 1e300, 1e-300, 1.0])
         kind = R.rng.choice(['ndarray', 'matrix', 'lnpdf'])
         axis = R.rng.choice([0, 0, 1])
         R.count(('marg', i), nontrivial=style != 'small')
@@ -123,6 +128,8 @@ def run(R):
         if all(x == NINF for x in v):
             continue   # no normalised form exists; excluded by the property's theorem and recorded only
         dV = R.rng.choice([1.0, 0.25, 1e-3, 13.0])
+        if style == 'edge':
+            dV = R.rng.choice([1e12, 1e-30, 1e300, 1e-300, 1.0])
         kind = R.rng.choice(['1d', 'matrix_row', 'lnpdf'])
         R.count(('norm', i), nontrivial=style != 'small')
         with np.errstate(all='ignore'):
@@ -188,7 +195,7 @@ def run(R):
     if bad:
         R.violation('log-domain reduction: %s fails' % bad['check'], bad)
     R.cov['rule'] = ('random 1-D/2-D arrays, matrices and LnPDF objects, both axes, values in [-1e5, 1e4] with column styles '
-                     '(large positive, large negative, mixed columns, wide spread), random -inf patterns incl. whole slices, dV > 0; '
+                     '(large positive, large negative, mixed columns, wide spread, and values just inside +-709 with volume elements from 1e-300 to 1e300), random -inf patterns incl. whole slices, dV > 0; '
                      'non-trivial = not the small-magnitude style; blocks of rows marginalised separately, stacked and marginalised again against the joint exact value, slices normalised twice')
     return proved
 
